@@ -180,6 +180,9 @@ Proof. reflexivity. Qed.
 Lemma py_format_str s : py_format (PStr s) = Ok s.
 Proof. reflexivity. Qed.
 
+Lemma py_add_strs a b : py_add (PStr a) (PStr b) = Ok (PStr (a ++ b)).
+Proof. reflexivity. Qed.
+
 (* { **a, **b } for two dicts of texts with disjoint, distinct keys *)
 Lemma fold_dict_set_sdict l : forall acc,
   fold_left (fun a p => dict_set a (fst p) (snd p)) (map sentry l) (map sentry acc)
@@ -252,18 +255,17 @@ Proof.
   rewrite (fold_set_fresh fst snd (fun kv => ends_none_text (snd kv)) l []);
     [|exact Hnd|intros; reflexivity].
   cbn [app]. rewrite map_pair_id.
-  (* mandatory_args *)
+  (* mandatory_args: `k not in optional_args`, or the negated test on the text itself *)
   rewrite (foldM_sdict sitem _
-             (fun acc kv => if negb (alist_has (filter (fun kv => ends_none_text (snd kv)) l) (fst kv))
-                            then alist_set acc (fst kv) (snd kv) else acc)).
-  2:{ intros acc [k v] _. unfold sitem. cbn [fst snd]. rewrite py_unpack_pair. cbn [bind].
-      rewrite py_in_dyn_sdict. cbn [py_not bind].
+             (fun acc kv => if negb (ends_none_text (snd kv)) then alist_set acc (fst kv) (snd kv) else acc)).
+  2:{ intros acc [k v] Hin. unfold sitem. cbn [fst snd]. rewrite py_unpack_pair. cbn [bind].
+      first [ rewrite py_in_dyn_sdict, (has_filter_nodup _ l (k, v) Hnd Hin)
+            | rewrite py_str_endswith_str; unfold ends_none_text, none_suffix ].
+      cbn [py_not bind snd].
       destruct (negb _); [apply py_setitem_sdict|reflexivity]. }
   cbn [bind].
   rewrite (fold_set_fresh fst snd _ l []); [|exact Hnd|intros; reflexivity].
   cbn [app]. rewrite map_pair_id.
-  rewrite (filter_ext_in _ (fun kv => negb (ends_none_text (snd kv)))).
-  2:{ intros kv Hin. rewrite (has_filter_nodup _ l kv Hnd Hin). reflexivity. }
   (* {**mandatory_args, **optional_args} *)
   rewrite py_dict_unpack_sdict; [reflexivity|]. apply (ordered_text_nodup l Hnd).
 Qed.
@@ -323,6 +325,7 @@ Ltac run :=
   repeat first
     [ progress eval_mul
     | rewrite py_add_lists
+    | rewrite py_add_strs
     | erewrite join_app_strs by reflexivity
     | erewrite join_closed_strs by reflexivity
     | progress cbn [bind py_format] ].
@@ -358,7 +361,8 @@ Section Cls.
     intros C l apd_stub. unfold get_init. cbv zeta. run.
     rewrite py_dict_items_sdict. cbn [bind].
     rewrite (mapM_items_str sitem _ param_text).
-    2:{ intros [k v] _. unfold sitem. cbn [fst snd]. rewrite py_unpack_pair. cbn [bind py_format]. reflexivity. }
+    2:{ intros [k v] _. unfold sitem, param_text. cbn [fst snd]. rewrite py_unpack_pair. run.
+        rewrite <- ?app_assoc. reflexivity. }
     run. rewrite getattr_additional. cbn [bind py_truthy]. unfold stub_kw.
     destruct (effective_additional apd_stub C); run; reflexivity.
   Qed.
@@ -386,7 +390,8 @@ Section Cls.
     (* params *)
     rewrite py_dict_items_sdict. cbn [bind].
     rewrite (mapM_items_str sitem _ param_text).
-    2:{ intros [k v] _. unfold sitem. cbn [fst snd]. rewrite py_unpack_pair. cbn [bind py_format]. reflexivity. }
+    2:{ intros [k v] _. unfold sitem, param_text. cbn [fst snd]. rewrite py_unpack_pair. run.
+        rewrite <- ?app_assoc. reflexivity. }
     run. rewrite getattr_additional. cbn [bind py_truthy]. unfold stub_kw.
     destruct (effective_additional apd_stub C); run; reflexivity.
   Qed.
